@@ -117,6 +117,12 @@ func StreamConjuncts(r *rand.Rand) []*Scenario {
 		add(fmt.Sprintf("c:notonorafter-lexical-%d", i), func(s *Scenario) { s.Req.NotOnOrAfter = idp.S(lex) })
 		add(fmt.Sprintf("c:notbefore-lexical-%d", i), func(s *Scenario) { s.Req.NotBefore = idp.S(lex) })
 	}
+	for i, lex := range []string{"0001-01-01T00:00:00Z", "0001-01-01T00:00:00.000Z", "0001-01-01T00:00:01Z", "1970-01-01T00:00:00Z", "9999-12-31T23:59:59Z"} {
+		lex := lex
+		add(fmt.Sprintf("c:notonorafter-extreme-%d", i), func(s *Scenario) { s.Req.NotOnOrAfter = idp.S(lex) })
+		add(fmt.Sprintf("c:notbefore-extreme-%d", i), func(s *Scenario) { s.Req.NotBefore = idp.S(lex) })
+		add(fmt.Sprintf("c:both-extreme-%d", i), func(s *Scenario) { s.Req.NotBefore = at(-time.Minute); s.Req.NotOnOrAfter = idp.S(lex) })
+	}
 	add("c:conditions-empty-attrs", func(s *Scenario) { s.Req.NotBefore = idp.S(""); s.Req.NotOnOrAfter = idp.S("") })
 	add("c:conditions-no-attrs", func(s *Scenario) { s.Req.Conditions = true })
 	add("c:wrong-root", func(s *Scenario) {
@@ -140,7 +146,7 @@ func (s *Scenario) RawMsgDoc(doc string) {
 	}
 }
 
-var mutsRedirect = []string{"", "", "bitflip-sig", "bitflip-signed-msg", "strip-sig", "sigalg-only", "swap-relay", "alg-subst", "move-to-post", "param-split"}
+var mutsRedirect = []string{"", "", "bitflip-sig", "bitflip-signed-msg", "strip-sig", "sigalg-only", "sig-only", "swap-relay", "alg-subst", "move-to-post", "param-split", "split-forged-body"}
 var mutsPost = []string{"", "", "bitflip-msg", "bitflip-sigvalue", "foreign-keyinfo", "wrap-cert", "move-to-redirect", "move-to-redirect-tampered", "post-detached-sig", "post-detached-sig-bad", "param-split"}
 
 // StreamSigned: signing requirement flags x signing x mutations of validly signed messages
